@@ -46,7 +46,7 @@ func init() {
 	}})
 }
 
-var hostileMethods = []string{"GET", "POST", "PUT", "DELETE", "PATCH", "OPTIONS", "HEAD", "CONNECT", "TRACE", "get", "Post", "", "BREW", " GET", "GET ", "G\x00T", "\xff\xfe", "*", "PROPFIND", strings.Repeat("M", 300)}
+var hostileMethods = []string{"GET", "POST", "PUT", "DELETE", "PATCH", "OPTIONS", "HEAD", "CONNECT", "TRACE", "get", "Post", "", "BREW", " GET", "GET ", "G\x00T", "\xff\xfe", "*", "PROPFIND", strings.Repeat("M", 300), "po\u017ft", "opt\u0131ons", "\u212aET", "gET", "Trace"}
 
 func hostilePath(rng *rand.Rand, routes []*rmodel.Route) (string, string) {
 	switch rng.Intn(14) {
@@ -216,7 +216,11 @@ func (ti *totInstance) serve(rq totReq) totObs {
 	}
 	func() {
 		defer func() { o.pan = recover() }()
-		ti.f.ServeHTTP(spy, &http.Request{Method: string(rq.Method), URL: &url.URL{Path: string(rq.Path)}, Header: hdr, RequestURI: string(rq.Path)})
+		u := &url.URL{Path: string(rq.Path)}
+		if len(rq.Hdr)%2 == 1 {
+			u.RawPath = nonCanonicalEncoding(string(rq.Path), len(rq.Path)) // as a parsed request would carry; routing is defined on Path
+		}
+		ti.f.ServeHTTP(spy, &http.Request{Method: string(rq.Method), URL: u, Header: hdr, RequestURI: string(rq.Path)})
 	}()
 	o.status, o.body = spy.status, string(spy.body)
 	return o
